@@ -1,4 +1,5 @@
 import OjgVerif.JPText.Spec
+import OjgVerif.JPText.LemmasPath
 /-! # C14: the shape of what the equation reader builds, and of what the printers mean
 
 `readEq` (jp/parse.go) reads `a0 o1 a1 o2 a2 …` into the RIGHT-nested chain
@@ -52,6 +53,7 @@ def Eqn.text : Eqn → Bytes
   | .val v => v.print
   | .un o l =>
     if isCode o Gen.JpOps.op_group then 40 :: (l.text ++ [41])
+    else if isCode o Gen.JpOps.op_length || isCode o Gen.JpOps.op_count then o.name ++ 40 :: (l.text ++ [41])
     else o.name ++ l.text
   | .bin o l r =>
     if isCall o then o.name ++ 40 :: (l.text ++ 44 :: 32 :: (r.text ++ [41]))
@@ -62,26 +64,57 @@ def grp (p : Bool) (t : Eqn) : Eqn := if p then .un Gen.JpOps.op_group t else t
 
 /-! ## the trees the general reader lemma (`LemmasReadEq`) covers -/
 
-/-- constants whose text the reader lemma covers: int64, booleans, null, Nothing, strings (any bytes) -/
-def Val.simple : Val → Bool
+/-- a fragment the parser builds as it is written: `Wildcard('*')` read from `.*`, a slice of two or three
+numbers -/
+def Frag.selfImg : Frag → Bool
+  | .wild h => !h
+  | .slice ns => ns.length == 2 || ns.length == 3
+  | _ => true
+
+/-- a path operand as the parser builds it: Root or At, then clean fragments (no filter), each in the form
+the parser gives it (`imgL false x = x`) -/
+def pathLeaf (x : List Frag) : Bool := cleanPath x && x.all Frag.selfImg
+
+/-- a float constant in the text form the reader keeps: the `FormatFloat` grammar, finite, with a `.` or
+an exponent (what `appendFloat` writes) -/
+def floatLeaf (t : Bytes) : Bool := floatTextOk t && (!floatNoForm t && floatPrint t == t)
+
+/-- constants of a list constant that the reader lemma covers -/
+def Val.scalar : Val → Bool
   | .int i => inInt64 i
   | .bool _ => true
   | .null => true
   | .nothing => true
   | .str _ => true
+  | .flt t => floatLeaf t
   | _ => false
+
+/-- constants whose text the reader lemma covers, in the form the reader builds them: int64, booleans, null,
+Nothing, strings (any bytes), finite floats, regexes whose source `AppendString` leaves alone, flat lists of
+scalars, filter-free paths -/
+def Val.simple : Val → Bool
+  | .list vs => vs.all Val.scalar
+  | .expr x => pathLeaf x
+  | .regex s => !regexDev s
+  | v => v.scalar
 
 /-- read by `readEqValue` as ONE operand: anything but an infix node -/
 def Eqn.isAtom : Eqn → Bool
   | .bin o _ _ => !o.isInfix
   | _ => true
 
+/-- the operand of `length(…)`/`count(…)`: a path -/
+def Eqn.isPathVal : Eqn → Bool
+  | .val (.expr x) => pathLeaf x
+  | _ => false
+
 /-- a tree as `readEq` builds it (before `precedentCorrect`) for a text made of simple constants, `!`,
-parentheses, the 19 binary operators and `match`/`search` calls: the left operand of every infix node
+parentheses, the 19 binary operators, `match`/`search` calls and `length`/`count` of a path: the left operand of every infix node
 is an atom (the chain is right-nested), the operand of `!` is an atom -/
 def Eqn.raw : Eqn → Bool
   | .val v => v.simple
-  | .un o l => (o == Gen.JpOps.op_not && (l.isAtom && l.raw)) || (o == Gen.JpOps.op_group && l.raw)
+  | .un o l => (o == Gen.JpOps.op_not && (l.isAtom && l.raw)) || (o == Gen.JpOps.op_group && l.raw) ||
+      ((o == Gen.JpOps.op_length || o == Gen.JpOps.op_count) && l.isPathVal)
   | .bin o l r =>
     if o.isInfix then binOps.contains o && (l.isAtom && (l.raw && r.raw))
     else (o == Gen.JpOps.op_match || o == Gen.JpOps.op_search) && (l.raw && r.raw)
